@@ -48,3 +48,52 @@ Definition ex_pps : pps_syntax :=
            [Some [0; 3; -3; -8]%Z; None; None; None; None; Some [-8]%Z;
             Some [1; -9]%Z; None; None; None; None; None]
            (-2)%Z.
+
+(* ------------------------------------------------------------------ slice header *)
+(* interlaced High-profile SPS with id 7, poc type 0 *)
+Definition ex_sl_sps : sps_syntax :=
+  mkSpsSyn 3 100 false false false false false false 40 7
+           1 false 0 0 false false []
+           3 0 5 false 0%Z 0%Z []
+           4 false 19 14 false false true
+           false 0 0 0 0
+           false ex_vui.
+
+(* PPS with id 2 referring to SPS 7: CABAC, bottom_field_pic_order, explicit weighted bi-prediction *)
+Definition ex_sl_pps : pps_syntax :=
+  mkPpsSyn 3 2 7 true true 0 0 [] [] false 0 []
+           1 1 true 1 0%Z 0%Z 0%Z true false true
+           false false false [] 0%Z.
+
+(* non-IDR reference B slice (slice_type 6): override of the active reference counts, list
+   modification for both lists, explicit prediction weights, adaptive marking with four operations *)
+Definition ex_slice : slice_syntax :=
+  mkSliceSyn 2 1 5 6 2 0 9 false false 0 33 (-3)%Z 0%Z 0%Z 1
+             true true 2 1
+             true [(0, 4); (2, 7)] true [(1, 0)]
+             5 4
+             [mkPwt (Some (1, -1)%Z) None; mkPwt None (Some (2, 3, -4, 5)%Z); mkPwt None None]
+             [mkPwt (Some (-128, 127)%Z) (Some (0, 0, 0, 1)%Z); mkPwt None None]
+             false false true [(1, 3, 0); (3, 2, 5); (4, 6, 0); (2, 9, 0)]
+             1 (-4)%Z false 0%Z 0 2%Z (-1)%Z 0
+             [true; false; true; true].
+
+(* known finding F7: 20x15 macroblock picture, two slice groups, map type 3, change rate 1:
+   slice_group_change_cycle has Ceil(Log2(300 + 1)) = 9 bits *)
+Definition ex_fmo_sps : sps_syntax :=
+  mkSpsSyn 3 66 true true false false false false 30 0
+           1 false 0 0 false false []
+           0 0 2 false 0%Z 0%Z []
+           1 false 19 14 true false true
+           false 0 0 0 0
+           false ex_vui.
+Definition ex_fmo_pps : pps_syntax :=
+  mkPpsSyn 3 0 0 false false 1 3 [] [] true 0 []
+           0 0 false 0 0%Z 0%Z 0%Z false false false
+           false false false [] 0%Z.
+Definition ex_fmo_slice : slice_syntax :=
+  mkSliceSyn 3 5 0 7 0 0 0 false false 1 0 0%Z 0%Z 0%Z 0
+             false false 0 0 false [] false [] 0 0 [] []
+             false false false [] 0 2%Z false 0%Z 0 0%Z 0%Z 300
+             [true; true; false].
+
